@@ -422,6 +422,61 @@ pub fn io_nest(r: &mut Rng) -> String {
     s
 }
 
+/// Counting loops whose body adds a growing cell to an accumulator (`y += d; x += y`): the optimiser's
+/// triangular closed forms with all three halving alternatives (even/odd increment, even/odd constant
+/// trip count, input-dependent trip count), optionally combined with a geometric update `z = m*z + c`.
+pub fn triangular(r: &mut Rng) -> String {
+    let mut s = String::new();
+    // cell 0: counter, 1: y, 2: x, 3: tmp, 4: z, 5: tmp2
+    if r.chance(1, 4) {
+        s.push(',');
+    } else {
+        for _ in 0..1 + r.below(9) {
+            s.push('+');
+        }
+    }
+    // initial y and x
+    s.push('>');
+    for _ in 0..r.below(4) {
+        s.push('+');
+    }
+    s.push('>');
+    for _ in 0..r.below(3) {
+        s.push('+');
+    }
+    s.push_str("<<[-");
+    let d = 1 + r.below(4);
+    let first_inc = r.chance(1, 2);
+    s.push('>');
+    if first_inc {
+        for _ in 0..d {
+            s.push('+');
+        }
+    }
+    // x += y (y restored through tmp)
+    s.push_str("[->+>+<<]>>[-<<+>>]<<");
+    if !first_inc {
+        for _ in 0..d {
+            s.push(if r.chance(1, 6) { '-' } else { '+' });
+        }
+    }
+    if r.chance(1, 3) {
+        // geometric: z = m*z + c
+        let m = 2 + r.below(3);
+        s.push_str(">>>[->");
+        for _ in 0..m {
+            s.push('+');
+        }
+        s.push_str("<]>[-<+>]<");
+        for _ in 0..r.below(3) {
+            s.push('+');
+        }
+        s.push_str("<<<");
+    }
+    s.push_str("<]>.>.>>.");
+    s
+}
+
 pub fn roaming(r: &mut Rng) -> String {
     let mut s = String::new();
     let segs = 1 + r.below(5);
